@@ -34,8 +34,42 @@ def tables():
     }
 
 
+def record_defaults():
+    """How every attrs field of the classes in psd/layer_and_mask.py gets its default: `factory` (a new object per
+    instance), `immutable` (a value that cannot be mutated), `required`, or `shared` (ONE mutable object, created with
+    the class, for every instance built without that argument). The cross-layer frame theorem needs: no `shared`."""
+    import enum
+    import inspect
+    import attr
+    import psd_tools.psd.layer_and_mask as M
+    out = []
+    for cname, cls in sorted(vars(M).items()):
+        if not (inspect.isclass(cls) and attr.has(cls) and cls.__module__ == M.__name__):
+            continue
+        for f in attr.fields(cls):
+            d = f.default
+            if d is attr.NOTHING:
+                how = "required"
+            elif isinstance(d, attr.Factory):
+                how = "factory"
+            elif d is None or isinstance(d, (bool, int, float, str, bytes, tuple, frozenset, enum.Enum)):
+                how = "immutable"
+            else:
+                how = "shared"
+            out.append((f"{cname}.{f.name}", how))
+    return out
+
+
 def gen_attr(ctx):
     t = tables()
+    try:
+        t["defaults"] = record_defaults()
+        if not any(n == "LayerRecord.flags" for n, _ in t["defaults"]):
+            ctx.notes.append("extract_c16: LayerRecord.flags not found among the attrs fields of psd/layer_and_mask.py")
+            t["defaults"].append(("LayerRecord.flags", "missing"))
+    except Exception as e:  # noqa - a change of the source: the tying theorem fails, the run goes on
+        ctx.notes.append(f"extract_c16: attrs fields of psd/layer_and_mask.py cannot be read ({type(e).__name__}: {e})")
+        t["defaults"] = [("LayerRecord.flags", "missing")]
     L = ["namespace PsdVerif.Generated.Attr", ""]
     L.append("/-- `constants.BlendMode`: (member name, 4-byte key) in definition order -/")
     L.append("def blendModes : List (String × List UInt8) := [")
@@ -60,6 +94,12 @@ def gen_attr(ctx):
     L.append("def protectedFlags : List (String × Nat) := ["
              + ", ".join(f'("{n}", {v})' for n, v in t["protected"].items()) + "]")
     L.append("")
+    L.append("/-- attrs fields of psd/layer_and_mask.py: where the default value comes from -/")
+    L.append("def recordDefaults : List (String × String) := [")
+    L.append(",\n".join(f'  ("{n}", "{h}")' for n, h in t["defaults"]))
+    L.append("]")
+    L.append("")
     L.append("end PsdVerif.Generated.Attr")
     ctx.write_generated("Attr", "\n".join(L) + "\n")
-    return {"blend_modes": len(t["blend"]), "protected_flags": t["protected"]}
+    return {"blend_modes": len(t["blend"]), "protected_flags": t["protected"],
+            "record_defaults": {h: sum(1 for _, x in t["defaults"] if x == h) for h in sorted({x for _, x in t["defaults"]})}}
